@@ -920,3 +920,294 @@ Proof.
 Qed.
 
 Print Assumptions ev_leaf_rel.
+
+(* ---------- doPrintf ---------- *)
+Lemma JS_bind_o (Hp : ovr -> Prop) {A B} (RA : A -> A -> Prop) (RB : B -> B -> Prop) m1 m2 k1 k2 :
+  JS (fun s1 _ => Hp (povr s1)) RA m1 m2 -> kovr m1 ->
+  (forall a1 a2, RA a1 a2 -> JS (fun s1 _ => Hp (povr s1)) RB (k1 a1) (k2 a2)) ->
+  JS (fun s1 _ => Hp (povr s1)) RB (bind m1 k1) (bind m2 k2).
+Proof.
+  intros Hm Hko Hk s1 s2 N S Hs. unfold bind. specialize (Hm s1 s2 N S Hs). pose proof (Hko s1) as Eo.
+  destruct (m1 s1) as [[a1|v1| |w1] s1'] eqn:E1; destruct (m2 s2) as [[a2|v2| |w2] s2'] eqn:E2; try exact Logic.I;
+    try (destruct (k1 a1 s1') as [[?|?| |?] ?]; exact Logic.I).
+  destruct Hm as (Ra & N' & S' & G). cbn [snd] in Eo.
+  assert (Hp (povr s1')) as Hs' by (rewrite Eo; exact Hs).
+  specialize (Hk a1 a2 Ra s1' s2' N' S' Hs').
+  destruct (k1 a1 s1') as [[b1|?| |?] s1''], (k2 a2 s2') as [[b2|?| |?] s2'']; try exact Logic.I.
+  destruct Hk as (Rb & N'' & S'' & G'). refine (conj Rb (conj N'' (conj S'' _))). eapply seg_trans; eassumption.
+Qed.
+
+Definition NoO : pst -> pst -> Prop := fun s1 _ => (fun o => o = NoOvr) (povr s1).
+
+Definition no_star (f : bytes) : bool := forallb (fun c => negb (c =? 42)%N) f.
+
+Lemma no_star_fb f i : no_star f = true -> ((i <? length f)%nat && (fb f i =? 42)) = false.
+Proof.
+  intros H. destruct (i <? length f)%nat eqn:E; [|reflexivity]. apply Nat.ltb_lt in E. cbn [andb].
+  unfold no_star in H. rewrite forallb_forall in H. specialize (H (nth i f 0%N) (nth_In _ _ E)).
+  unfold fb. destruct (nth i f 0%N =? 42)%N eqn:E2; [discriminate|]. apply N.eqb_neq in E2.
+  apply Z.eqb_neq. intros X. apply E2. apply N2Z.inj. exact X.
+Qed.
+
+Section Loop.
+  Variable rec : recT.
+  Variable env : env.
+  Hypothesis Hrec : rec_ok rec.
+  Hypothesis Hkrec : forall c, kovr (rec c).
+
+  Ltac nbmod :=
+    let s1 := fresh "s1" in let s2 := fresh "s2" in let N := fresh "N" in let S := fresh "S" in
+    intros s1 s2 N S; split;
+    [ destruct N; destruct s1, s2; constructor; cbn in *; auto; try congruence
+    | unfold SE in *; destruct s1, s2; cbn in *; auto ].
+
+  Lemma J_modf (h : pst -> pst) :
+    (forall s1 s2, NB s1 s2 -> SE s1 s2 -> NB (h s1) (h s2) /\ SE (h s1) (h s2)) -> (forall s, pl (h s) = pl s) ->
+    J any (modify h) (modify h).
+  Proof. intros H1 H2. now apply J_modify. Qed.
+
+  Lemma J_upd_flags g : J any (upd_flags g) (upd_flags g).
+  Proof. unfold upd_flags. apply J_modf; [nbmod | intros []; reflexivity]. Qed.
+  Lemma J_clearflags : J any clearflags clearflags.
+  Proof. unfold clearflags. apply J_modf; [nbmod | intros []; reflexivity]. Qed.
+  Lemma J_set_good b : J any (modify (fun s => set_good s b)) (modify (fun s => set_good s b)).
+  Proof. apply J_modf; [nbmod | intros []; reflexivity]. Qed.
+  Lemma J_set_reordered b : J any (modify (fun s => set_reordered s b)) (modify (fun s => set_reordered s b)).
+  Proof. apply J_modf; [nbmod | intros []; reflexivity]. Qed.
+  Lemma J_set_wid w p : J any (modify (fun s => set_wid s w p)) (modify (fun s => set_wid s w p)).
+  Proof. apply J_modf; [nbmod | intros []; reflexivity]. Qed.
+  Lemma J_set_prec w p : J any (modify (fun s => set_prec s w p)) (modify (fun s => set_prec s w p)).
+  Proof. apply J_modf; [nbmod | intros []; reflexivity]. Qed.
+
+  Lemma kovr_mod h : (forall s, povr (h s) = povr s) -> kovr (modify h).
+  Proof. intros H s. apply H. Qed.
+
+  Lemma J_flag_loop fuel f e argNum numArgs : forall i, J eq (flag_loop fuel f i e argNum numArgs) (flag_loop fuel f i e argNum numArgs).
+  Proof.
+    induction fuel as [|k IH]; intros i; cbn [flag_loop]; [now apply J_ret|].
+    destruct (i <? e)%nat; [|now apply J_ret].
+    repeat match goal with |- J eq (if ?c then _ else _) _ => destruct c end;
+      try (eapply J_bind; [apply J_upd_flags | intros; apply IH]); now apply J_ret.
+  Qed.
+
+  Lemma J_argNumber argNum f i e numArgs : J eq (argNumber argNum f i e numArgs) (argNumber argNum f i e numArgs).
+  Proof.
+    unfold argNumber. destruct ((e <=? i)%nat || negb (fb f i =? 91)); [now apply J_ret|].
+    eapply J_bind; [apply J_set_reordered | intros _ _ _].
+    destruct (parseArgNumber f i e) as [[index w] ok].
+    destruct (ok && (0 <=? index) && (index <? numArgs)); [now apply J_ret|].
+    eapply J_bind; [apply J_set_good | intros; now apply J_ret].
+  Qed.
+
+  Lemma Forall2_len {A B} (R : A -> B -> Prop) l1 l2 : Forall2 R l1 l2 -> length l1 = length l2.
+  Proof. induction 1; cbn; congruence. Qed.
+
+  Lemma lrel_nth a1 : forall a2 n, Forall2 lrel a1 a2 -> lrel (nth n a1 VNil) (nth n a2 VNil).
+  Proof.
+    induction a1 as [|x r IH]; intros a2 n H; inversion H; subst.
+    - destruct n; apply lrel_refl; reflexivity.
+    - destruct n; cbn [nth]; [assumption | now apply IH].
+  Qed.
+
+  Lemma NoO_HS P s1 s2 : NoO s1 s2 -> HS P s1 s2.
+  Proof. unfold NoO, HS. intros -> X. discriminate. Qed.
+
+  Lemma Jrec_arg a1 a2 n verb : Forall2 lrel a1 a2 ->
+    JS NoO any (rec (CPrintArg (nth n a1 VNil) verb)) (rec (CPrintArg (nth n a2 VNil) verb)).
+  Proof.
+    intros Ha s1 s2 N S Hn.
+    pose proof (Hrec (CPrintArg (nth n a1 VNil) verb) (CPrintArg (nth n a2 VNil) verb) (conj eq_refl (lrel_nth a1 a2 n Ha)) s1 s2 N S (NoO_HS _ _ _ Hn)) as R.
+    destruct (rec (CPrintArg (nth n a1 VNil) verb) s1) as [[u1|?| |?] x], (rec (CPrintArg (nth n a2 VNil) verb) s2) as [[u2|?| |?] y]; try exact Logic.I.
+    destruct R as (_ & R). exact (conj Logic.I R).
+  Qed.
+
+  Hypothesis Hkeeps : rec_keeps rec.
+
+  Ltac jb := eapply (JS_bind_o (fun o => o = NoOvr)).
+  Ltac jn x := apply (J_JS NoO); exact x.
+
+  Lemma J_format_loop f a1 a2 : no_star f = true -> Forall2 lrel a1 a2 ->
+    forall fuel i argNum afterIndex,
+    JS NoO eq (format_loop fuel rec f a1 i argNum afterIndex) (format_loop fuel rec f a2 i argNum afterIndex).
+  Proof.
+    intros Hns Ha. pose proof (Forall2_len _ _ _ Ha) as El.
+    induction fuel as [|k IH]; intros i argNum afterIndex; cbn [format_loop]; [intros s1 s2 _ _ _; exact Logic.I|].
+    rewrite <- El. set (e := length f). set (numArgs := Z.of_nat (length a1)).
+    assert (forall j, ((j <? e)%nat && (fb f j =? 42)) = false) as Hst by (intros; apply no_star_fb; exact Hns).
+    destruct (negb (i <? e)%nat); [apply J_JS; now apply J_ret|].
+    jb; [jn (J_set_good true) | apply kovr_mod; intros []; reflexivity | intros _ _ _].
+    jb; [| destruct (i <? skip_literal (S e) f i e)%nat; [apply kovr_w1 | intros s; reflexivity] | intros _ _ _].
+    { destruct (i <? skip_literal (S e) f i e)%nat; [jn (J_w1 (WS (subb f i (skip_literal (S e) f i e)))) | apply J_JS; now apply J_ret]. }
+    destruct (e <=? skip_literal (S e) f i e)%nat; [apply J_JS; now apply J_ret|].
+    jb; [jn J_clearflags | apply kovr_keeps, keeps_clearflags | intros _ _ _].
+    jb; [apply J_JS, J_flag_loop | apply kovr_keeps, keeps_flag_loop | intros fr ? <-].
+    destruct fr as [c i3 | i3].
+    { (* the fast path *)
+      jb; [| destruct (c =? 118); [apply kovr_keeps, keeps_upd_flags | intros s; reflexivity] | intros _ _ _].
+      { destruct (c =? 118); [jn (J_upd_flags f_verbv) | apply J_JS; now apply J_ret]. }
+      jb; [now apply Jrec_arg | apply Hkrec | intros _ _ _]. apply IH. }
+    jb; [apply J_JS, J_argNumber | apply kovr_keeps, keeps_argNumber | intros [[an i4] ai] ? <-].
+    (* width *)
+    rewrite (Hst i4).
+    jb.
+    { destruct (parsenum f i4 e) as [[w present] i5].
+      eapply JS_bind; [jn (J_set_wid w present) | intros _ _ _].
+      eapply J_bind; [|intros _ _ _; now apply (J_ret eq (an, i5, ai) (an, i5, ai))].
+      destruct (ai && present); [apply J_set_good | now apply J_ret]. }
+    { destruct (parsenum f i4 e) as [[w present] i5]. apply kovr_bind; [apply kovr_mod; intros []; reflexivity | intros _].
+      apply kovr_bind; [destruct (ai && present); [apply kovr_mod; intros []; reflexivity | intros s; reflexivity] | intros _ s; reflexivity]. }
+    intros [[an2 i5] ai2] ? <-.
+    (* precision *)
+    jb.
+    { destruct ((S i5 <? e)%nat && (fb f i5 =? 46)); [|apply J_JS; now apply (J_ret eq (an2, i5, ai2) (an2, i5, ai2))].
+      eapply JS_bind; [| intros _ _ _].
+      { destruct ai2; [jn (J_set_good false) | apply J_JS; now apply J_ret]. }
+      eapply J_bind; [apply J_argNumber | intros [[an3 i7] ai3] ? <-].
+      rewrite (Hst i7).
+      destruct (parsenum f i7 e) as [[p present] i8].
+      eapply J_bind; [|intros _ _ _; now apply (J_ret eq (an3, i8, ai3) (an3, i8, ai3))].
+      destruct present; apply J_set_prec. }
+    { destruct ((S i5 <? e)%nat && (fb f i5 =? 46)); [|intros s; reflexivity].
+      apply kovr_bind; [destruct ai2; [apply kovr_mod; intros []; reflexivity | intros s; reflexivity] | intros _].
+      apply kovr_bind; [apply kovr_keeps, keeps_argNumber | intros [[an3 i7] ai3]].
+      rewrite (Hst i7). destruct (parsenum f i7 e) as [[p present] i8].
+      apply kovr_bind; [destruct present; apply kovr_mod; intros []; reflexivity | intros _ s; reflexivity]. }
+    intros [[an4 i8] ai4] ? <-.
+    jb; [| destruct ai4; [intros s; reflexivity | apply kovr_keeps, keeps_argNumber] | intros [[an5 i9] ai5] ? <-].
+    { destruct ai4; [apply J_JS; now apply (J_ret eq (an4, i8, true) (an4, i8, true)) | apply J_JS, J_argNumber]. }
+    destruct (e <=? i9)%nat.
+    { apply J_JS. eapply J_bind; [apply J_wstr | intros; now apply J_ret]. }
+    destruct (if fb f i9 <? 128 then (fb f i9, 1%nat) else decode_rune (skipn i9 f)) as [verb size].
+    apply JS_get_bind. intros x y s1 s2 N S (-> & -> & Hn). rewrite <- (nb_good _ _ N).
+    assert (forall m1 m2 : M Z, JS NoO eq m1 m2 -> match m1 x, m2 y with
+              | (ROk a1', s1'), (ROk a2', s2') => a1' = a2' /\ NB s1' s2' /\ SE s1' s2' /\ seg x s1' y s2' | _, _ => True end) as Hap
+      by (intros m1 m2 Hm; apply Hm; auto).
+    destruct (verb =? 37).
+    { apply Hap. jb; [jn (J_wbyte 37) | apply kovr_wbyte | intros _ _ _]. apply IH. }
+    destruct (negb (goodArgNum x)).
+    { apply Hap. jb; [jn (J_wstr "%!") | apply kovr_wstr | intros _ _ _].
+      jb; [jn (J_w1 (WR verb)) | apply kovr_w1 | intros _ _ _].
+      jb; [jn (J_wstr "(BADINDEX)") | apply kovr_wstr | intros _ _ _]. apply IH. }
+    destruct (numArgs <=? an5).
+    { apply Hap. jb; [jn (J_wstr "%!") | apply kovr_wstr | intros _ _ _].
+      jb; [jn (J_w1 (WR verb)) | apply kovr_w1 | intros _ _ _].
+      jb; [jn (J_wstr "(MISSING)") | apply kovr_wstr | intros _ _ _]. apply IH. }
+    apply Hap.
+    jb; [| destruct (verb =? 118); [apply kovr_keeps, keeps_upd_flags | intros s; reflexivity] | intros _ _ _].
+    { destruct (verb =? 118); [jn (J_upd_flags f_verbv) | apply J_JS; now apply J_ret]. }
+    jb; [now apply Jrec_arg | apply Hkrec | intros _ _ _]. apply IH.
+  Qed.
+End Loop.
+
+Section Top.
+  Variable rec : recT.
+  Variable env : env.
+  Hypothesis Hrec : rec_ok rec.
+  Hypothesis Hkrec : forall c, kovr (rec c).
+  Hypothesis Hkeeps : rec_keeps rec.
+
+  Ltac jb := eapply (JS_bind_o (fun o => o = NoOvr)).
+  Ltac jba := eapply (JS_bind_o (fun o => o = NoOvr) any).
+
+  Lemma J_enter_safe : JS NoO any enter_safe enter_safe.
+  Proof.
+    unfold enter_safe. apply JS_get_bind. intros x y s1 s2 N S (-> & -> & Hn).
+    unfold NoO in Hn. rewrite <- (nb_ovr _ _ N), Hn. cbn [ovr_eqb].
+    apply (JS_set_mode MSafe); auto. intros _. discriminate.
+  Qed.
+
+  Lemma J_extra_args a1 : forall a2 first, Forall2 lrel a1 a2 ->
+    JS NoO any (extra_args rec first a1) (extra_args rec first a2).
+  Proof.
+    induction a1 as [|x r IH]; intros a2 first H; inversion H as [|? y ? r2 Hxy Hr]; subst; cbn [extra_args]; [apply J_JS; now apply J_ret|].
+    jba; [| destruct first; [intros s; reflexivity | apply kovr_wstr] | intros _ _ _].
+    { destruct first; [apply J_JS; now apply J_ret | apply J_JS, J_wstr]. }
+    jba; [| | intros _ _ _; now apply IH].
+    - destruct (value_eq_nil x) as [-> | Hn1].
+      + assert (y = VNil) as -> by (now apply (lrel_nil_iff _ _ Hxy)). apply J_JS, J_wstr.
+      + assert (y <> VNil) as Hn2 by (intros E; apply Hn1; now apply (lrel_nil_iff _ _ Hxy)).
+        destruct (lrel_tinfo _ _ Hxy) as (_ & Etn & _).
+        assert ((match x with VNil => wstr "<nil>" | _ => w1 (WS (type_name x)) ;;; wbyte 61 ;;; rec (CPrintArg x 118) ;;; ret tt end)
+                = (w1 (WS (type_name x)) ;;; wbyte 61 ;;; rec (CPrintArg x 118) ;;; ret tt)) as -> by (destruct x; congruence).
+        assert ((match y with VNil => wstr "<nil>" | _ => w1 (WS (type_name y)) ;;; wbyte 61 ;;; rec (CPrintArg y 118) ;;; ret tt end)
+                = (w1 (WS (type_name y)) ;;; wbyte 61 ;;; rec (CPrintArg y 118) ;;; ret tt)) as -> by (destruct y; congruence).
+        rewrite <- Etn.
+        jb; [apply J_JS, J_w1 | apply kovr_w1 | intros _ _ _].
+        jb; [apply J_JS, J_wbyte | apply kovr_wbyte | intros _ _ _].
+        eapply JS_bind; [|intros; now apply J_ret].
+        intros s1 s2 N S Hn.
+        pose proof (Hrec (CPrintArg x 118) (CPrintArg y 118) (conj eq_refl Hxy) s1 s2 N S (NoO_HS _ _ _ Hn)) as R.
+        destruct (rec (CPrintArg x 118) s1) as [[u1|?| |?] p], (rec (CPrintArg y 118) s2) as [[u2|?| |?] q]; try exact Logic.I.
+        destruct R as (_ & R). exact (conj Logic.I R).
+    - destruct x; try (apply kovr_wstr);
+        (apply kovr_bind; [apply kovr_w1 | intros _]; apply kovr_bind; [apply kovr_wbyte | intros _]; apply kovr_bind; [apply Hkrec | intros _ sx; reflexivity]).
+  Qed.
+
+  Lemma Forall2_skipn {A B} (R : A -> B -> Prop) n : forall l1 l2, Forall2 R l1 l2 -> Forall2 R (skipn n l1) (skipn n l2).
+  Proof. induction n as [|k IH]; intros l1 l2 H; [exact H|]. inversion H; subst; cbn [skipn]; [constructor | now apply IH]. Qed.
+
+  Lemma J_doPrintf f a1 a2 : no_star f = true -> Forall2 lrel a1 a2 ->
+    JS NoO any (doPrintf rec f a1) (doPrintf rec f a2).
+  Proof.
+    intros Hns Ha. unfold doPrintf. rewrite <- (Forall2_len _ _ _ Ha).
+    jb; [apply J_enter_safe | apply kovr_enter_safe | intros _ _ _].
+    jb; [apply J_JS, J_set_reordered | apply kovr_mod; intros []; reflexivity | intros _ _ _].
+    jb; [now apply J_format_loop | apply kovr_keeps, keeps_format_loop, Hkeeps | intros argNum ? <-].
+    apply JS_get_bind. intros x y s1 s2 N S (-> & -> & Hn). rewrite <- (nb_re _ _ N).
+    destruct (negb (reordered x) && (argNum <? Z.of_nat (length a1))).
+    - assert (JS NoO any (clearflags ;;; wstr "%!(EXTRA " ;;; extra_args rec true (skipn (Z.to_nat argNum) a1) ;;; wbyte 41)
+                         (clearflags ;;; wstr "%!(EXTRA " ;;; extra_args rec true (skipn (Z.to_nat argNum) a2) ;;; wbyte 41)) as Hk.
+      { jb; [apply J_JS, J_clearflags | apply kovr_keeps, keeps_clearflags | intros _ _ _].
+        jb; [apply J_JS, J_wstr | apply kovr_wstr | intros _ _ _].
+        eapply JS_bind; [apply J_extra_args, Forall2_skipn, Ha | intros; apply J_wbyte]. }
+      apply Hk; auto.
+    - apply (J_ret any tt tt Logic.I); auto.
+  Qed.
+End Top.
+
+(* ---------- the theorem ---------- *)
+Lemma NB_newPrinter : NB newPrinter newPrinter /\ SE newPrinter newPrinter /\ NoO newPrinter newPrinter.
+Proof.
+  split; [|split; [intros H; discriminate | reflexivity]].
+  constructor; cbn; auto; try discriminate.
+Qed.
+
+Theorem sprintf_leaf_dsim fuel env f a1 a2 o1 o2 :
+  osane (orc env) -> no_star f = true -> Forall2 lrel a1 a2 ->
+  sprintf fuel env f a1 = ROk o1 -> sprintf fuel env f a2 = ROk o2 ->
+  exists ops1 ops2 m', o_log o1 = ops1 ++ [OTake] /\ o_log o2 = ops2 ++ [OTake] /\
+                       o_bytes o1 = output ops1 /\ o_bytes o2 = output ops2 /\ dsim MUnsafe ops1 ops2 m'.
+Proof.
+  intros Ho Hns Ha H1 H2. unfold sprintf in H1, H2.
+  destruct fuel as [|k]; [discriminate|]. cbn [ev] in H1, H2.
+  destruct NB_newPrinter as (N0 & S0 & Hn0).
+  assert (JS NoO any (doPrintf (ev k env) f a1 ;;; ret RU) (doPrintf (ev k env) f a2 ;;; ret RU)) as Hj.
+  { eapply JS_bind; [|intros; now apply J_ret].
+    exact (J_doPrintf (ev k env) (ev_leaf_rel k env Ho) (fun c => kovr_ev k env c) (keeps_ev k env) f a1 a2 Hns Ha). }
+  specialize (Hj newPrinter newPrinter N0 S0 Hn0).
+  destruct ((doPrintf (ev k env) f a1 ;;; ret RU) newPrinter) as [[r1|?| |?] s1] eqn:E1; try discriminate.
+  destruct ((doPrintf (ev k env) f a2 ;;; ret RU) newPrinter) as [[r2|?| |?] s2] eqn:E2; try discriminate.
+  destruct Hj as (_ & N' & S' & (d1 & d2 & L1 & L2 & D)).
+  cbn [finish] in H1, H2. unfold l_step in H1, H2. injection H1 as <-. injection H2 as <-. cbn [o_log o_bytes].
+  exists (rev (rlog (pl s1))), (rev (rlog (pl s2))), (lmode (pl s1)).
+  split; [reflexivity|]. split; [reflexivity|].
+  split; [unfold output, redactable_bytes; rewrite <- (lok (pl s1)); reflexivity|].
+  split; [unfold output, redactable_bytes; rewrite <- (lok (pl s2)); reflexivity|].
+  rewrite L1, L2. cbn [newPrinter fresh_pp pl l_init rlog]. rewrite !app_nil_r. exact D.
+Qed.
+
+(* Non-interference of Sprintf for leaf operands: Redact() of the two results is byte-identical *)
+Theorem sprintf_leaf_noninterference fuel env f a1 a2 o1 o2 :
+  osane (orc env) -> no_star f = true -> Forall2 lrel a1 a2 ->
+  sprintf fuel env f a1 = ROk o1 -> sprintf fuel env f a2 = ROk o2 ->
+  forall ops1 ops2, o_log o1 = ops1 ++ [OTake] -> o_log o2 = ops2 ++ [OTake] ->
+  rawok ops1 = true -> ptail_ok_from init ops1 = true -> ptail_ok_from init ops2 = true ->
+  Markers.redact_b (o_bytes o1) = Markers.redact_b (o_bytes o2).
+Proof.
+  intros Ho Hns Ha H1 H2 ops1 ops2 E1 E2 Hr T1 T2.
+  destruct (sprintf_leaf_dsim fuel env f a1 a2 o1 o2 Ho Hns Ha H1 H2) as (p1 & p2 & m' & F1 & F2 & B1 & B2 & D).
+  rewrite E1 in F1. rewrite E2 in F2. apply app_inj_tail in F1, F2. destruct F1 as [<- _], F2 as [<- _].
+  rewrite B1, B2. eapply redact_noninterference_seg; eassumption.
+Qed.
+
+Print Assumptions sprintf_leaf_noninterference.
